@@ -362,7 +362,7 @@ def interleaved_configs(tier):
 
 # =============================================================================
 
-SPLIT = {'quick': 4, 'thorough': 6}    # subtrees per E1 configuration (each
+SPLIT = {'quick': 2, 'thorough': 1}    # subtrees per E1 configuration (each
                                        # has its own happens-before cache)
 
 
